@@ -5,6 +5,8 @@ func extraRules() []*Rule {
 	var out []*Rule
 	out = append(out, rulesLocks()...)
 	out = append(out, rulesTables()...)
+	out = append(out, rulesStorage()...)
+	out = append(out, ruleLifecycle(), ruleHeartbeat())
 	return out
 }
 
